@@ -256,6 +256,16 @@ func init() {
 		s.results = []Term{Eq(fc.bstr(s.args[0]), fc.bstr(s.args[1]))}
 		return true
 	}
+	libModels["bytes.Compare"] = func(fc *FnCtx, s *CallSite) bool {
+		r := fc.freshConst("bcmp", SInt)
+		a, b := s.args[0], s.args[1]
+		mem := fc.lookup(fc.memVar(types.Typ[types.Uint8]))
+		fc.eng.ixDecl()
+		same := T(SBool, "(and (= (s_len %[1]s) (s_len %[2]s)) (forall ((k Int)) (! (=> (and (<= 0 k) (< k (s_len %[1]s))) (= (select (select %[3]s (s_arr %[1]s)) (ix (s_off %[1]s) k)) (select (select %[3]s (s_arr %[2]s)) (ix (s_off %[2]s) k)))) :pattern ((select (select %[3]s (s_arr %[1]s)) (ix (s_off %[1]s) k))) :pattern ((select (select %[3]s (s_arr %[2]s)) (ix (s_off %[2]s) k))))))", a.S, b.S, mem.S)
+		fc.assume(T(SBool, "(and (<= (- 1) %s) (<= %s 1) (= (= %s 0) %s))", r.S, r.S, r.S, same.S))
+		s.results = []Term{r}
+		return true
+	}
 	libModels["bytes.HasSuffix"] = func(fc *FnCtx, s *CallSite) bool {
 		s.results = []Term{T(SBool, "(str.suffixof %s %s)", fc.bstr(s.args[1]).S, fc.bstr(s.args[0]).S)}
 		return true
